@@ -223,13 +223,36 @@ pub struct Obs {
 
 pub struct RootInfo {
     pub ptr: *const u8,
+    /// capacity of the allocation as the container itself reports it (`mk_root` checked `capacity()`)
     pub cap: usize,
+    /// length of the root's `as_uninit()` (`None` if it panicked); must equal `cap`
+    pub reported_cap: Option<usize>,
 }
 
 impl RootInfo {
-    pub fn of(v: &mut BV) -> Self {
-        let u = (*v).as_uninit();
-        RootInfo { ptr: u.as_ptr() as *const u8, cap: u.len() }
+    /// `cap` is the capacity the real container was built with, *not* taken from compio-buf
+    pub fn of(v: &mut BV, cap: usize) -> Self {
+        let u = catch(|| {
+            let u = (*v).as_uninit();
+            (u.as_ptr() as *const u8, u.len())
+        });
+        match u {
+            Ok((ptr, n)) => RootInfo { ptr, cap, reported_cap: Some(n) },
+            Err(_) => {
+                let ptr = catch(|| (*v).as_init().as_ptr()).unwrap_or(std::ptr::null());
+                RootInfo { ptr, cap: if ptr.is_null() { 0 } else { cap }, reported_cap: None }
+            }
+        }
+    }
+
+    /// monitor: a root's writable region is its whole capacity
+    pub fn monitor(&self, ex: &mut Exec, ctx: &str) {
+        if self.reported_cap != Some(self.cap) {
+            ex.fail(
+                "C10:root-capacity",
+                format!("{ctx}: the container has capacity {} but its as_uninit() has length {:?}", self.cap, self.reported_cap),
+            );
+        }
     }
 
     pub fn mem(&self) -> Vec<u8> {
@@ -327,7 +350,7 @@ fn range_of(b: usize, e: Option<usize>) -> (Bound<usize>, Bound<usize>) {
 
 impl Machine {
     pub fn new() -> Self {
-        Machine { st: St::Dead, ri: RootInfo { ptr: std::ptr::null(), cap: 0 }, kind: String::new(), growable: false }
+        Machine { st: St::Dead, ri: RootInfo { ptr: std::ptr::null(), cap: 0, reported_cap: Some(0) }, kind: String::new(), growable: false }
     }
 
     pub fn alive(&self) -> bool {
@@ -392,8 +415,8 @@ impl Machine {
             };
             return match mk_root(w[1], len, &mem) {
                 Some(mut v) => {
-                    self.ri = RootInfo::of(&mut v);
-                    assert_eq!(self.ri.cap, mem.len(), "root capacity");
+                    self.ri = RootInfo::of(&mut v, mem.len());
+                    self.ri.monitor(ex, line);
                     self.kind = w[1].to_string();
                     self.growable = matches!(w[1], "vec" | "bytesmut" | "smallvec");
                     ex.tag(format!("root:{}", w[1]));
@@ -489,7 +512,7 @@ impl Machine {
                 };
                 ex.tag("flatten");
                 // monitor: flatten shows the same ranges as the nested slice it replaces
-                let ri = RootInfo { ptr: self.ri.ptr, cap: self.ri.cap };
+                let ri = RootInfo { ptr: self.ri.ptr, cap: self.ri.cap, reported_cap: self.ri.reported_cap };
                 let mut disagree: Option<String> = None;
                 let dis = &mut disagree;
                 let out = self.ctor(ex, line, false, move |v| {
@@ -732,6 +755,19 @@ impl Machine {
     }
 }
 
+/// `Machine::apply` with every panic that escapes the per-call `catch`es turned into a monitor failure: the
+/// harness process must survive whatever the real code does (short of UB)
+pub fn safe_apply(m: &mut Machine, line: &str, ex: &mut Exec) -> String {
+    match catch(|| m.apply(line, ex)) {
+        Ok(o) => o,
+        Err(msg) => {
+            ex.fail("C10:panic", format!("{line}: panic outside the modelled panics: {msg}"));
+            *m = Machine::new();
+            "harness-panic".into()
+        }
+    }
+}
+
 /// Would the real `reserve(k)` reallocate a growable root (allocator-dependent, not issued)?
 /// `reserve(0)` walks the real path: a `Slice` with an end refuses before reaching the root, `Uninit`
 /// forwards to the buffer under its slice; at the root the real impls compare `k` with `cap - len`.
@@ -834,7 +870,8 @@ fn gen_program(rng: &mut Rng, max_cap: usize) -> Vec<String> {
     let mut scratch = Exec::new();
     let mut lines = vec![];
     let push = |m: &mut Machine, lines: &mut Vec<String>, l: String, scratch: &mut Exec| {
-        m.apply(&l, scratch);
+        // the generator runs the real code to draw in-range parameters: never let it take the process down
+        safe_apply(m, &l, scratch);
         lines.push(l);
     };
     push(&mut m, &mut lines, gen_root(rng, max_cap), &mut scratch);
@@ -849,7 +886,7 @@ fn gen_program(rng: &mut Rng, max_cap: usize) -> Vec<String> {
             push(&mut m, &mut lines, l, &mut scratch);
             continue;
         }
-        let o = m.obs().unwrap();
+        let Ok(Some(o)) = catch(|| m.obs()) else { break };
         let li = o.init.map(|x| x.1).unwrap_or(0);
         let lu = o.uninit.map(|x| x.1).unwrap_or(0);
         let depth = m.depth();
@@ -994,9 +1031,19 @@ fn exec(case: &Case) -> Exec {
     for l in &case.lines {
         let o = if l.starts_with("sibling ") {
             let w: Vec<&str> = l.split_whitespace().collect();
-            if w.len() == 5 { sibling_demo(&w, l, &mut ex) } else { "bad-op".into() }
+            if w.len() == 5 {
+                match catch(|| sibling_demo(&w, l, &mut ex)) {
+                    Ok(o) => o,
+                    Err(msg) => {
+                        ex.fail("C10:panic", format!("{l}: {msg}"));
+                        "harness-panic".into()
+                    }
+                }
+            } else {
+                "bad-op".into()
+            }
         } else {
-            m.apply(l, &mut ex)
+            safe_apply(&mut m, l, &mut ex)
         };
         if (l.starts_with("fill ") || l.starts_with("ext") || l.starts_with("wwrite")) && (o.starts_with("i=") || o.starts_with("ext:ok")) {
             recorded = true;
@@ -1004,7 +1051,7 @@ fn exec(case: &Case) -> Exec {
         if m.depth() > 0 {
             layered = true;
         }
-        if o == "panic" || o == "contract" || o.starts_with("root ") && l.starts_with("sibling") {
+        if o == "panic" || o == "harness-panic" || o == "contract" || o.starts_with("root ") && l.starts_with("sibling") {
             ex.nontrivial = true;
         }
         ex.out.push(o);
